@@ -308,6 +308,9 @@ TYPES = {
     # alternatives quoted in the master because their names contain a blank
     "choiceq": ("choice", 'fast "*very slow" off'),
     "choicemq": ("choice(multi=True)", '*plain "semi bold" "extra bold"'),
+    # alternatives whose names hold a '+' (the character of the a+b shorthand)
+    "choicep": ("choice", "sites *sites+adp sites+adp+occ none_"),
+    "choicemp": ("choice(multi=True)", "*x+y z x+y+z"),
     "float": ("float", "1.5"),
     "floats": ("floats", "1.5 2"),
 }
@@ -317,9 +320,10 @@ INT_BOUNDS = {"int": (None, None), "int09": (0, 9), "intnn": (None, None), "ints
 INTS_SIZE = {"ints": (0, 6), "ints2": (2, 2), "ints13": (1, 3), "intsna": (0, 5)}
 CHOICES = ["a", "b", "c"]
 CHOICE_ALTS = {"choice": CHOICES, "choicem": CHOICES, "choiceq": ["fast", "very slow", "off"],
-               "choicemq": ["plain", "semi bold", "extra bold"]}
-MULTI_CHOICE = ("choicem", "choicemq")
-SINGLE_CHOICE = ("choice", "choiceq")
+               "choicemq": ["plain", "semi bold", "extra bold"], "choicep": ["sites", "sites+adp", "sites+adp+occ", "none_"],
+               "choicemp": ["x+y", "z", "x+y+z"]}
+MULTI_CHOICE = ("choicem", "choicemq", "choicemp")
+SINGLE_CHOICE = ("choice", "choiceq", "choicep")
 
 
 def rand_str(rng, maxlen=6):
@@ -486,6 +490,8 @@ class ConvRoundTrip(Stream):
             ["intsna", None, ["list", [["none"]]], "witness:single-none-element"],
             ["ints", None, ["list", []], "witness:empty-list-text"],
             ["strings", None, ["list", [["str", "x\ny"], ["str", "z"]]], "witness:multiline-before-more"],
+            ["choicemp", None, ["list", []], "witness:plus-names-no-selection"],
+            ["choicep", None, ["none"], "witness:plus-names-no-selection"],
             # repaired defects (must pass): 7891807 a strings item spelt None/Auto is written quoted; b77ba3d scalar bounds
             ["strings", None, ["list", [["str", "None"]]], "dom"],
             ["strings", None, ["list", [["str", "auto"]]], "dom"],
@@ -517,6 +523,10 @@ class ConvRoundTrip(Stream):
             ["choiceq", None, ["str", "fast"], "dom"],
             ["choicemq", None, ["list", [["str", "semi bold"], ["str", "extra bold"]]], "dom"],
             ["choicemq", None, ["list", []], "dom"],
+            ["choicep", None, ["str", "sites+adp"], "dom"],
+            ["choicep", None, ["str", "sites+adp+occ"], "dom"],
+            ["choicemp", None, ["list", [["str", "x+y"], ["str", "x+y+z"]]], "dom"],
+            ["choicemp", None, ["list", [["str", "x+y+z"]]], "dom"],
             ["words", None, ["words", [["a b", "2"], ["c", "n"]]], "dom"],
             ["words", None, ["list", []], "ill"],
         ]
@@ -551,15 +561,28 @@ class ConvRoundTrip(Stream):
                     yield [tk, None, ["str", s], "dom" if tk != "qstr" else "any"]
 
     # -- implementation
-    def master(self, tk, opt):
-        k = (tk, opt)
+    def master(self, tk, opt, route=0):
+        """route 0: the parsed master; 1: a deep copy of it; 2: a pickle round trip (what a GUI or a job file hands on) -
+        the declared type with all its constructor arguments is the same master"""
+        k = (tk, opt, route)
         if k not in self.masters:
-            self.masters[k] = self.fp.parse(master_text(tk, opt))
+            m = self.fp.parse(master_text(tk, opt))
+            if route == 1:
+                import copy
+                m = copy.deepcopy(m)
+            elif route == 2:
+                import pickle
+                m = pickle.loads(pickle.dumps(m))
+            self.masters[k] = m
         return self.masters[k]
+
+    @staticmethod
+    def route(case):
+        return len(json.dumps(case)) % 3
 
     def impl(self, case):
         tk, opt, vs, _ = case
-        root = self.master(tk, opt)
+        root = self.master(tk, opt, self.route(case))
         d = root.objects[0]
         v = self.cd.from_json(vs)
         self.orc.reset()
@@ -708,6 +731,9 @@ def text_kind(tree):
     if kind == "def":
         if len(body) == 0:
             return "empty-list-text"
+        if any(a[0] == "type" and a[1][0] == "type" and a[1][1][0] == "choice" for a in at if isinstance(a[1], list) and len(a[1]) > 1 and isinstance(a[1][1], list)) \
+                and any("+" in w[0] for w in body) and not any(w[0].startswith("*") for w in body):
+            return "plus-names-no-selection"
         # (quoted words may follow a word that spans lines; a bare word after it cannot be written)
         if any("\n" in w[0] and any(x[1] == "n" for x in body[i + 1:]) for i, w in enumerate(body[:-1])):
             return "multiline-before-more"
@@ -1008,6 +1034,8 @@ SRC_TEXTS = {
     "choicem": ["b", "a+c", "*a *b", "None", "a b c", "Auto"],
     "choiceq": ["off", '"very slow"', "*fast", "None", 'fast "*very slow" off'],
     "choicemq": ['"semi bold"', '*plain "*extra bold"', "None", 'plain "*semi bold" "extra bold"', "Auto"],
+    "choicep": ["*sites", "sites *sites+adp sites+adp+occ none_", "sites sites+adp *sites+adp+occ none_", "*none_", "None"],
+    "choicemp": ["*x+y *z", "x+y *z *x+y+z", "*x+y+z", "None", "z"],
     "float": ["2.5", "1e3", "None", "1/3"],
     "floats": ["0.5 1e-3", "None", "7"],
 }
